@@ -222,7 +222,7 @@ func c18Oracle(info *runInfo, res *verifsim.Result) {
 	delivered, handled := 0, 0
 	for i := range h.ev {
 		e := &h.ev[i]
-		if (e.K == "act.ra" || e.K == "act.rs" || e.K == "act.ns" || e.K == "act.na") && e.If == ifn && e.Err == "" && (stopSeq == 0 || e.Seq < stopSeq) {
+		if (e.K == "act.ra" || e.K == "act.rs" || e.K == "act.ns" || e.K == "act.na") && e.If == ifn && e.Err == "" && (stopSeq == 0 || e.Seq < stopSeq) && h.deliveredAlive(e) {
 			delivered++
 		}
 	}
